@@ -118,6 +118,11 @@ func (Implementation) Dgemm(tA, tB blas.Transpose, m, n, k int, alpha float64, a
 		}
 	}
 
+	if alpha == 0 {
+		// A and B are not referenced.
+		return
+	}
+
 	dgemmParallel(aTrans, bTrans, m, n, k, a, lda, b, ldb, c, ldc, alpha)
 }
 
